@@ -117,13 +117,20 @@ type headBuf struct {
 func (t *headBuf) Write(p []byte) (int, error) {
 	t.mu.Lock()
 	defer t.mu.Unlock()
-	if room := 4096 - len(t.b); room > 0 {
+	if room := 16384 - len(t.b); room > 0 {
 		if len(p) < room {
 			room = len(p)
 		}
 		t.b = append(t.b, p[:room]...)
 	}
 	return len(p), nil
+}
+
+// all returns everything kept (the start of the stack trace of a fatal error).
+func (t *headBuf) all() string {
+	t.mu.Lock()
+	defer t.mu.Unlock()
+	return string(t.b)
 }
 
 func (t *headBuf) head() string {
@@ -200,7 +207,7 @@ func (h *harness) runBatch(entry string, ins [][]byte) []resp {
 			case l, ok := <-lines:
 				if !ok {
 					cmd.Wait()
-					out[i] = resp{status: "died", out: cmd.ProcessState.String() + ": " + errBuf.head()}
+					out[i] = resp{status: "died", out: cmd.ProcessState.String() + ": " + errBuf.head(), extra: errBuf.all()}
 					i++
 					break recv
 				}
